@@ -370,12 +370,48 @@ def b_sum(I, args, kw):
     return acc
 
 
+def _char_quant(I, which, g):
+    """any/all(c.<pred>() for c in <symbolic string>) -> regular-language membership, else None"""
+    import ast
+    g = I.force(g) if not isinstance(g, VFn) else g
+    if not (isinstance(g, VFn) and g.kind == "lazygen"):
+        return None
+    n = g.node
+    if len(n.generators) != 1 or n.generators[0].ifs or not isinstance(n.generators[0].target, ast.Name):
+        return None
+    e = n.elt
+    if not (isinstance(e, ast.Call) and not e.args and not e.keywords and isinstance(e.func, ast.Attribute) and
+            isinstance(e.func.value, ast.Name) and e.func.value.id == n.generators[0].target.id):
+        return None
+    from . import regex
+    if e.func.attr not in regex.STR_PRED:
+        return None
+    saved = I.frames[-1].env
+    I.frames[-1].env = dict(g.frame_env)
+    try:
+        sv = I.force(I.eval(n.generators[0].iter))
+    finally:
+        I.frames[-1].env = saved
+    if sv.tag != "str" or z3.is_string_value(sv.t):
+        return None
+    msg = "A-ASCII: %s(c.%s() for c in <str>) is decided with the ASCII character class" % (which, e.func.attr)
+    if msg not in I.ctx.notes:
+        I.ctx.notes.append(msg)
+    return VBool(regex.quantified_char_pred(which, e.func.attr, sv.t))
+
+
 def b_any(I, args, kw):
+    r = _char_quant(I, "any", args[0])
+    if r is not None:
+        return r
     items = _conc_iter(I, args[0])
     return VBool(z3.Or([I.truth(x) for x in items] + [z3.BoolVal(False)]))
 
 
 def b_all(I, args, kw):
+    r = _char_quant(I, "all", args[0])
+    if r is not None:
+        return r
     items = _conc_iter(I, args[0])
     return VBool(z3.And([I.truth(x) for x in items] + [z3.BoolVal(True)]))
 
@@ -646,6 +682,17 @@ def str_method(I, v, name, args, kw):
             return VStr(f(s, *parts))
         return VStr(z3.String(I.fresh_name("fmt")))
     if name == "join":
+        try:
+            parts = [I.force(x) for x in _conc_iter(I, args[0])] if len(args) == 1 else None
+        except Unsupported:
+            parts = None
+        if parts is not None and all(p_.tag == "str" for p_ in parts):
+            if not parts:
+                return VStr(z3.StringVal(""), v.is_bytes)
+            out = parts[0].t
+            for p_ in parts[1:]:
+                out = z3.Concat(out, s, p_.t)
+            return VStr(out, v.is_bytes)
         return VStr(z3.String(I.fresh_name("join")))
     if name in ("isdigit", "isnumeric", "isalpha", "isupper", "islower"):
         f = z3.Function("py_" + name, z3.StringSort(), z3.BoolSort())
